@@ -22,6 +22,8 @@ func main() {
 			}
 		}
 		os.Exit(runCheck(os.Args[2], tier))
+	case "explain":
+		os.Exit(explain(os.Args[2]))
 	case "load":
 		p, err := Load("/repo", nil)
 		if err != nil {
